@@ -125,6 +125,13 @@ func listFuncs(pkgs map[string]*packages.Package) []string {
 	return out
 }
 
+// litSigs: signatures of the function literals the inliner is working inside (keyed by the pseudo
+// declaration that stands for the literal).
+var litSigs = map[*ast.FuncDecl]*types.Signature{}
+
+// inlSeq numbers the labels and temporaries the inliner introduces (never reset).
+var inlSeq = 0
+
 // ifaceAliases: see singleImplNewIfaces (set by the loader before the normaliser runs).
 var ifaceAliases map[*types.TypeName]types.Type
 
@@ -529,7 +536,8 @@ func inlineInFile(fset *token.FileSet, p *packages.Package, f *ast.File, helpers
 		return h
 	}
 	n := 0
-	label := 0
+	label := inlSeq // names are unique over files, passes and rounds: an inner temporary must never shadow the one an outer inlining assigns to
+	defer func() { inlSeq = label }()
 	var ensureSet func(h *newHelper, set map[string]string) bool
 	ensureImports := func(h *newHelper) bool { return ensureSet(h, h.imports) }
 	ensureSet = func(h *newHelper, set map[string]string) bool {
@@ -711,14 +719,21 @@ func inlineInFile(fset *token.FileSet, p *packages.Package, f *ast.File, helpers
 		case "return":
 			// the helper's results are the caller's results, one to one
 			if fn == nil {
-				return nil // inside a function literal: left to the expression form
+				return nil
 			}
-			csig, _ := info.Defs[fn.Name].(*types.Func)
-			if csig == nil || csig.Type().(*types.Signature).Results().Len() != nres {
+			// the enclosing function: a declaration, or a function literal (stood in for by a
+			// pseudo declaration, see visit)
+			var encl *types.Signature
+			if cf, _ := info.Defs[fn.Name].(*types.Func); cf != nil {
+				encl = cf.Type().(*types.Signature)
+			} else {
+				encl = litSigs[fn]
+			}
+			if encl == nil || encl.Results().Len() != nres {
 				return nil
 			}
 			for i := 0; i < nres; i++ {
-				if !types.Identical(csig.Type().(*types.Signature).Results().At(i).Type(), sig.Results().At(i).Type()) {
+				if !types.Identical(encl.Results().At(i).Type(), sig.Results().At(i).Type()) {
 					return nil
 				}
 			}
@@ -805,8 +820,13 @@ func inlineInFile(fset *token.FileSet, p *packages.Package, f *ast.File, helpers
 				case *ast.CommClause:
 					x.Body = rewriteList(x.Body, encl, false)
 				case *ast.FuncLit:
-					// a return inside a literal belongs to the literal: no tail form there
-					visit(x.Body, nil)
+					// a return inside a literal returns from the literal: the literal is the
+					// enclosing function of the tail form
+					pseudo := &ast.FuncDecl{Name: ast.NewIdent("_"), Type: x.Type}
+					if sg, ok := info.TypeOf(x).(*types.Signature); ok {
+						litSigs[pseudo] = sg
+					}
+					visit(x.Body, pseudo)
 					return false
 				}
 				return true
